@@ -9,6 +9,7 @@ CONSTANTS
   AllowEmptyLeftover = FALSE
   CombinerClearsQueueOnFailedFlush = TRUE
   Hash <- HashId
+  ReaderReportsHunks = TRUE
   GcStopsOnUnreadableHunk = TRUE
 INVARIANTS Inv_Format Inv_NoDangling Inv_SnapRestores Inv_RecordedBytes Inv_CompleteSuccess Inv_SkippedReported Inv_UnchangedStoresNothing
 PROPERTIES Prop_WriteOnce
